@@ -15,9 +15,6 @@ From M17 Require Import ConstsLlr ImplLLR SpecLLR LemmasLLR_A LemmasLLR_B Lemmas
 Import ListNotations.
 Open Scope Z_scope.
 
-Lemma soft_dibit_unfold : forall v : Z * Z, soft_dibit v = (0 <? fst v, 0 <? snd v).
-Proof. reflexivity. Qed.
-
 (** ** float *)
 
 (** both soft bits are non-zero and within +-7, for every float whatsoever *)
